@@ -32,7 +32,7 @@ RULE = (
 )
 ASSUMPTIONS = [
     "genuine targets come from the generator's ground truth, never from the file's label column",
-    "train_fdr = test_fdr so that 'accepted during training' and 'accepted at the evaluation FDR' use one threshold",
+    "train_fdr = test_fdr on the small tables so that 'accepted during training' and 'accepted at the evaluation FDR' use one threshold; the strict cases train at 1 % and evaluate at 0.3-0.5 % (best-feature count at the training FDR on the recorded training rows, as the library defines it)",
     "q-values for counting use the real tdc (C01)",
 ]
 CASE_TIMEOUT = 600
@@ -51,7 +51,7 @@ def plan(seed, tier):
     # evaluation FDRs stricter than the library's internal defaults (large tables so that something is accepted)
     k = 10 if tier == "quick" else 100
     for i in range(k):
-        cases.append({"class": "safety", "index": 10000 + i, "learner": ["overfit", "weak", "knn:proba", "svc", "overfit"][i % 5],
+        cases.append({"class": "safety", "index": 10000 + i, "learner": ["spiky:proba", "overfit", "spiky:proba", "svc", "spiky"][i % 5],
                       "enc": ENCS[i % 3], "best_desc": bool(i % 4 != 3), "fmt": ["pin", "parquet"][i % 2], "nfiles": 1,
                       "folds": int(2 + i % 2), "override": False, "strict": True, "cost": 8})
     m = 12 if tier == "quick" else 120
@@ -83,10 +83,13 @@ def run_safety(case):
             tabs.append(tab)
             paths.append(psm.write_parquet(tab, d / f"f{fi}.parquet", row_group_size=int(rng.integers(20, 500)))
                          if case["fmt"] == "parquet" else psm.write_pin(tab, d / f"f{fi}.pin"))
+        # strict cases train at the customary 1 % and evaluate at 0.3-0.5 %
+        train_fdr = 0.01 if strict else fdr
         out = pipeline.run_brew(paths, learner=case["learner"], folds=case["folds"], seed=int(rng.integers(1 << 30)),
-                                test_fdr=fdr, train_fdr=fdr, max_iter=2, override=case["override"])
+                                test_fdr=fdr, train_fdr=train_fdr, max_iter=2, override=case["override"])
         extra = {k: case[k] for k in ("learner", "enc", "best_desc", "fmt", "nfiles", "folds", "override")}
         extra["fdr"] = fdr
+        extra["train_fdr"] = train_fdr
         extra["strict"] = strict
         if out["status"].startswith("crash"):
             res.violate("crash", out["sig"], msg=out["error"]["msg"], **extra)
@@ -126,7 +129,7 @@ def run_safety(case):
             if uid not in train_rids:
                 continue
             sub = by_rid.loc[sorted(train_rids[uid])]
-            counts = {(f, dsc): accepted(tdc, sub[f].values, sub["_t"].values, fdr, dsc) for f in feats for dsc in (True, False)}
+            counts = {(f, dsc): accepted(tdc, sub[f].values, sub["_t"].values, train_fdr, dsc) for f in feats for dsc in (True, False)}
             mx = max(counts.values())
             res.count("models_checked")
             if m.feat_pass != mx or counts.get((m.best_feat, bool(m.desc))) != mx:
